@@ -464,6 +464,25 @@ def run(ctx):
         ctx.violation(key, "solve_ivp %s not explained by AdaptiveRK at event %d/%d: %s" % (json.dumps(t_["cfg"]), matched + 1, total, json.dumps(ev)[:400]), {"cfg": t_["cfg"]})
     nnum = fixed_numeric(ctx)
     nhist = precision_histories(ctx)
+    # states with a leading batch dimension: the solver acts on the state as a whole, rows of a row-wise right-hand side evolve independently
+    Wb = torch.tensor([[0.2, -0.3, 0.1], [0.4, 0.1, -0.2], [-0.1, 0.3, 0.2]], dtype=DT)
+    fb = lambda t_, y_, a_: -a_ * y_ + 0.3 * torch.tanh(y_ @ Wb.T) * torch.cos(t_ + 0.4)
+    for method in ("rk4", "rk38", "euler", "rk23", "rk45"):
+        for gname in ("uniform", "decreasing"):
+            nhist += 1
+            ctx.case(key=("batched-state", method, gname))
+            kw = {} if method in ("rk4", "rk38", "euler") else {"rtol": 1e-9, "atol": 1e-11}
+            tsb = torch.tensor(GRIDS[gname], dtype=DT)
+            y0b = torch.tensor([[0.5, -0.2, 0.1], [1.0, 0.3, -0.7]], dtype=DT)
+            ab = torch.tensor(0.8, dtype=DT)
+            try:
+                ytb = xitorch.integrate.solve_ivp(fb, tsb, y0b, params=(ab,), method=method, **kw)
+                rows = torch.stack([xitorch.integrate.solve_ivp(fb, tsb, y0b[i], params=(ab,), method=method, **kw) for i in range(2)], dim=1)
+                if tuple(ytb.shape) != (len(tsb), 2, 3) or not torch.allclose(ytb, rows, atol=1e-8 if kw else 1e-13, rtol=0):
+                    ctx.violation("ivp/batched-state/%s" % method, "solve_ivp(%s) on a (2, 3) state, %s grid: shape %s / rows differ from the row-wise solves by %.2e"
+                                  % (method, gname, tuple(ytb.shape), float((ytb - rows).abs().max()) if ytb.shape == rows.shape else float("nan")), {"method": method})
+            except Exception as e:
+                ctx.violation("ivp/batched-state/%s" % method, "solve_ivp(%s) on a (2, 3) state raised %s: %s" % (method, type(e).__name__, str(e)[:120]), {"method": method})
     from vlib import resulthistory
     nhist += resulthistory.replay(ctx, ["solve_ivp:rk4", "solve_ivp:rk45", "solve_ivp:rk23"], "ivp")
     ctx.samples.append({"cfg": traces[0]["cfg"], "events": traces[0]["ev"][:6]})
